@@ -44,20 +44,19 @@ package common
 
 // ───────────── integer.go (assumed: decimal / float parsing is out of subset) ─────────────
 
-//@ assume func NewIntegerFromString
-//@   modifies nothing
-//@   ensures val(v) >= 0
-//@   ensures x == ExtraStoragePriceStep ==> val(v) == 10000
-//@   ensures x == "89.87671232" ==> val(v) == 8987671232   -- C25: the amount of the last legacy mint batch (kernel/mint.go lastMintDistribution)
-
-//@ assume func NewInteger
-//@   modifies nothing
-//@   ensures val(v) == x * 100000000
+//@ -- NewIntegerFromString: VERIFIED contract in zz_contracts_c33_text_verif.go (C33): modifies nothing, val(v) >= 0 and the parsed value;
+//@ -- it now documents its panics (not a decimal / negative), so the three C05 callers, which pass string constants, `trustpre` it.
+//@ -- The clauses `x == ExtraStoragePriceStep ==> val(v) == 10000` (C05) and `x == "89.87671232" ==> val(v) == 8987671232` (C25) are kept
+//@ -- there as `assumes` (values of two string literals).
+//@ -- NewInteger: VERIFIED contract in zz_contracts_c33_text_verif.go (val(v) == x * 100000000)
 
 //@ -- formatting of amounts for error messages: total (no panic for any value, including negative ones)
+//@ -- (C33) its value IntText(val(x)): the digits with a dot before the last 8, zero-padded (zz_contracts_c33_text_verif.go)
 //@ func (x Integer) String
-//@   property C05
-//@   modifies nothing
+//@   property C05, C33
+//@   pure
+//@   ensures [format] result == IntText(val(x))
+//@   assumes [c17-encode] val(x) >= 0 ==> AmountOfVal(kvstr(result)) == val(x) -- C17: ASSUMED codec pair with NewIntegerFromString (zz_contracts_c17_verif.go)
 
 // ───────────── validation.go ─────────────
 
@@ -70,6 +69,7 @@ package common
 
 //@ func (tx *SignedTransaction) GetExtraLimit
 //@   property C05
+//@   trustpre NewIntegerFromString -- (C33) its argument here is a string constant; that the constant is a non-negative decimal is assumed
 //@   requires tx != nil && OutputsOK(&tx.Transaction) && tx.Version >= TxVersionHashSignature
 //@   modifies nothing
 //@   ensures [bounds] ExtraSizeGeneralLimit <= result && result <= ExtraSizeStorageCapacity
@@ -91,6 +91,11 @@ package common
 //@ uninterp LedgerOutCount(s any, h crypto.Hash) mathint
 //@ uninterp LedgerOutType(s any, h crypto.Hash, i mathint) mathint
 //@ uninterp CustodianGenesis(s any) mathint
+//@ uninterp LedgerFinalized(s any, h crypto.Hash) bool
+//@ uninterp LedgerHasAsset(s any, id crypto.Hash) bool
+//@ uninterp LedgerBalance(s any, id crypto.Hash) mathint
+//@ uninterp LedgerAssetChain(s any, id crypto.Hash) crypto.Hash
+//@ uninterp LedgerAssetKey(s any, id crypto.Hash) string
 
 //@ spec CustodianKeysUnique(ns []*CustodianNode) bool = forall i, j int :: 0 <= i && i < j && j < len(ns) ==> ns[i].Custodian.String() != ns[j].Custodian.String()
 //@ spec KeysNonNil(ks []*crypto.Key) bool = forall k int :: 0 <= k && k < len(ks) ==> ks[k] != nil
@@ -106,6 +111,7 @@ package common
 //@ assume func (s TransactionReader) ReadTransaction(hash)
 //@   modifies nothing
 //@   ensures [S3-tx-found] err == nil && LedgerHasTx(recv, hash) ==> result0 != nil
+//@   ensures [S13-finalized] err == nil && result0 != nil && result1 != "" ==> LedgerFinalized(recv, hash) -- C16: the second result is the hex of the FINALIZATION record, "" when there is none (storage.readTransactionAndFinalization, verified: [not-finalized])
 //@   ensures [S4-tx-wf] err == nil && result0 != nil ==> StoredTxOK(result0)
 //@   ensures [S4b-tx-decoded] err == nil && result0 != nil ==> TxPayloadOK(&result0.SignedTransaction.Transaction) -- stored transactions were decoded from bytes (C06: DecodedTx)
 //@   ensures [S5-tx-ledger] err == nil && result0 != nil ==> len(result0.Outputs) == LedgerOutCount(recv, hash) &&
@@ -129,11 +135,17 @@ package common
 //@ assume func (s AssetReader) ReadAssetWithBalance(id)
 //@   modifies nothing
 //@   ensures [S9-balance] err == nil && result0 != nil ==> val(result1) >= 0
+//@   -- C16: the asset record and the recorded total as functions of the ledger state (storage.(*BadgerStore).ReadAssetWithBalance is verified
+//@   -- against the T-KV model: it returns exactly the ASSETTOTAL value of the committed state; storage/zz_contracts_c17_verif.go [balance])
+//@   ensures [S11-asset] err == nil ==> (result0 != nil <==> LedgerHasAsset(recv, id))
+//@   ensures [S12-total] err == nil && result0 != nil ==> val(result1) == LedgerBalance(recv, id) && result0.Chain == LedgerAssetChain(recv, id) && result0.AssetKey == LedgerAssetKey(recv, id)
 
 //@ func validateReferences
-//@   property C05
+//@   property C05, C16
 //@   requires tx != nil && store != nil
 //@   modifies nothing
+//@   ensures [c16-refs-final] err == nil ==> forall i int :: 0 <= i && i < len(tx.References) ==> LedgerFinalized(store, tx.References[i]) -- C16: ValidatePost of a withdrawal claim: its reference is stored AND finalized (what storage.writeWithdrawalClaim needs: ClaimPre)
+//@   loop 0 invariant [c16] forall j int :: 0 <= j && j <= rangeindex ==> LedgerFinalized(store, tx.References[j])
 
 //@ func validateUTXO
 //@   property C05
@@ -207,8 +219,10 @@ package common
 
 //@ func GetAssetCapacity
 //@   property C05
+//@   trustpre NewIntegerFromString -- (C33) its argument here is a string constant; that the constant is a non-negative decimal is assumed
 //@   modifies nothing
 //@   ensures val(result) >= 0
+//@   assumes [c17-table] val(result) == CapacityOf(id) -- C17: a deterministic function of id (switch over constants); ASSUMED, see zz_contracts_c17_verif.go
 
 //@ func (a *Asset) Verify
 //@   property C05
@@ -216,9 +230,13 @@ package common
 //@   modifies nothing
 
 //@ func (tx *Transaction) verifyDepositData
-//@   property C05
+//@   property C05, C16
 //@   requires tx != nil && store != nil && len(tx.Inputs) >= 1 && tx.Inputs[0] != nil && tx.Inputs[0].Deposit != nil
 //@   modifies nothing
+//@   -- C16: ValidatePost of a deposit, as far as the store sees it (what an accepted deposit guarantees about the ledger state it was validated on)
+//@   ensures [c16-amount] err == nil ==> val(tx.Inputs[0].Deposit.Amount) > 0
+//@   ensures [c16-capacity] err == nil && LedgerHasAsset(store, tx.Asset) ==> LedgerBalance(store, tx.Asset) + val(tx.Inputs[0].Deposit.Amount) < CapacityOf(tx.Asset)
+//@   ensures [c16-asset] err == nil && LedgerHasAsset(store, tx.Asset) ==> LedgerAssetChain(store, tx.Asset) == tx.Inputs[0].Deposit.Chain && LedgerAssetKey(store, tx.Asset) == tx.Inputs[0].Deposit.AssetKey
 
 //@ func (tx *SignedTransaction) validateDeposit
 //@   property C05
@@ -234,6 +252,7 @@ package common
 
 //@ func (tx *Transaction) validateWithdrawalClaim
 //@   property C05
+//@   trustpre NewIntegerFromString -- (C33) its argument here is a string constant; that the constant is a non-negative decimal is assumed
 //@   requires tx != nil && store != nil && UtxoMapOK(inputs) && OutputsOK(tx) && len(tx.Outputs) >= 1 && snapTime >= CustodianGenesis(store)
 //@   modifies nothing
 //@   loop 1 invariant rangeindex + 2 < len(tx.Outputs) ==> tx.Outputs[rangeindex + 2] != nil
